@@ -455,6 +455,25 @@ theorem C15_laws_satisfiable : RustlsLaws verifies verifiesClient handshake := b
             · cases h
           · simp only [Option.some.injEq] at h; exact Or.inl h.symm
 
+open Tls.TestPki in
+/-- The consequence of `C15_client_config_reads_back_asis_fails` for the property itself, in
+the test world: on the unchanged tree an https endpoint configured with
+`domain_name("bad.test")`, then `with_enabled_roots()`, then CA 1, connects (h2 negotiated) to a
+server whose chain does NOT verify for the configured name — `C15_client_connects_only_if`
+is false of the 0.13.0 code. Same case as the first corpus line of the harness. -/
+theorem C15_client_connects_only_if_asis_fails :
+    ∃ (ops : List (ClientOp Cert (List Cert))) (uri : Uri) (ep : Endpoint Cert (List Cert))
+      (srv : ServerHello Cert (List Cert)),
+      (Endpoint.fromShared uri).tlsConfig sys (ClientTlsConfig.buildAsIs ops) = .ok ep ∧
+      uri.scheme = some .https ∧
+      Connector.call ep true (fun c => (handshake c srv).client) = .ok (.tls (some alpnH2)) ∧
+      expectedName ops uri = some "bad.test" ∧
+      verifies (configuredRoots sys ops) srv.chain "bad.test" = false :=
+  ⟨[.domainName "bad.test", .withEnabledRoots, .caCertificate (some [.ca1])],
+   { scheme := some .https, host := some "good.test" }, _,
+   { chain := [.s1good], clientAuth := .off, alpn := [alpnH2] },
+   rfl, rfl, rfl, by decide, by decide⟩
+
 section Examples
 open Tls.TestPki
 
